@@ -37,6 +37,12 @@ def jobs(pid, tier, seed):
         out.append({"kind": "classifier"})
     if pid == "C16":
         out += [{"kind": "crashimg", "seed": seed * 1000 + i} for i in range(16 if tier == "quick" else 200)]
+    if pid in ("C02", "C17"):
+        # the real process over real TCP: an add processed while a subscriber's closing handshake is under way
+        orders = [("A", "B", "C"), ("B", "A", "C"), ("C", "B", "A"), ("A", "B")]
+        reps = 1 if tier == "quick" else 12
+        out += [{"kind": "wire_closing", "order": list(o), "usage": (i + k) % 2, "adds": 1 + (i + k) % 3}
+                for k in range(reps) for i, o in enumerate(orders)]
     n = N_RANDOM[tier]
     for i in range(n):
         out.append({"kind": "random", "seed": seed * 1000003 + i})
@@ -159,7 +165,31 @@ def run_c16_crash_images(acc, seed):
         rmtree(root)
 
 
+def run_wire_closing(pid, job, acc):
+    import tempfile, shutil
+    from .. import wire
+    wd = tempfile.mkdtemp(prefix="verif-wirec-", dir=new_workdir_root())
+    try:
+        problems, observed = wire.closing_handshake_case(wd, Config(usage=bool(job["usage"])), tuple(job["order"]), job["adds"])
+    finally:
+        shutil.rmtree(wd, ignore_errors=True)
+    acc.cases += 1
+    acc.ev["wire_closing_case"] += 1
+    acc.distinct.add("wire_closing:%s" % sorted(job.items()))
+    if problems:
+        acc.add_violation({"property": pid, "kind": "wire_closing", "case": "wire_closing:%s" % sorted(job.items()), "job": job,
+                           "violation": {"props": ["C02", "C17"], "kind": "add during another subscriber's closing handshake (real process, TCP)",
+                                         "detail": {"problems": problems, "observed": observed}, "step": None}})
+
+
+def new_workdir_root():
+    from ..engine import scratch_root
+    return scratch_root()
+
+
 def run_job(pid, job, acc):
+    if job["kind"] == "wire_closing":
+        return run_wire_closing(pid, job, acc)
     if job["kind"] == "classifier":
         return run_classifier_product(acc)
     if job["kind"] == "crashimg":
@@ -177,6 +207,10 @@ def run_job(pid, job, acc):
 
 
 def replay(pid, rep):
+    if rep.get("kind") == "wire_closing":
+        acc = Acc(pid)
+        run_wire_closing(pid, rep["job"], acc)
+        return acc
     if rep.get("kind") == "classifier":
         acc = Acc(pid)
         run_classifier_product(acc)
